@@ -101,7 +101,7 @@ def run(tier, seed):
         res.obligation("build harness against the git-ai working tree", False, "build")
         res.broken_tie("harness build", out[-3000:])
         return res.finish()
-    n = 45000 if tier == "quick" else 2000000
+    n = 45000 if tier == "quick" else 1200000
     corpus = os.path.join(C.VERIF, "corpus", "C19", "cases.jsonl")
     if tier == "quick":
         bad, newfail = C.phase_suite(res, "c19", seed, n, corpus)
@@ -115,7 +115,7 @@ def run(tier, seed):
         res.obligation("build git-ai binary from the working tree", False, "build")
         res.broken_tie("git-ai build", out[-3000:])
     else:
-        n_hist, n_commits = (36, 6) if tier == "quick" else (600, 8)
+        n_hist, n_commits = (36, 6) if tier == "quick" else (400, 8)
         phase_e2e(res, seed, n_hist, n_commits)
     if (bad or res.broken) and not res.violations:
         # broken tie: search harder for a concrete failing input on the implementation
